@@ -60,7 +60,13 @@ class OperatorDict(Mapping):
 
     def filter(self, keys_out, values_out):
         """ For given keys and values, keep only symbolically non-zero elements. """
-        keysvalues = tuple((k, simpv) for k, v in zip(keys_out, values_out) if (simpv := self.algebra.simp_func(v)))
+        keysvalues = tuple((k, self.algebra.simp_func(v)) for k, v in zip(keys_out, values_out))
+        if self.algebra.graded:
+            # In graded mode complete grades are kept: a grade is dropped only if all its coefficients vanish.
+            grades = {format(k, 'b').count('1') for k, v in keysvalues if v}
+            keysvalues = tuple((k, v) for k, v in keysvalues if format(k, 'b').count('1') in grades)
+        else:
+            keysvalues = tuple((k, v) for k, v in keysvalues if v)
         keys, values = zip(*keysvalues) if keysvalues else (tuple(), list())
         return keys, list(values)
 
